@@ -54,7 +54,8 @@ def loop_update_items_size(sign):
         size = fixed_item_size(I.getattr_(me, 'param'))
         if size is None:
             raise E.Unsupported('_update_items_size over a symbolic number of variable-size items')
-        d0 = as_int(ctx.entry['size_diff'])
+        name = loops.remap_contract_names(frame, ctx, ['size_diff'])['size_diff']        # the accumulator, whatever it is called
+        d0 = as_int(ctx.entry[name])
         return {'size_diff': ops.wrap_int(d0 + sign * V.iv(k) * size)}
     return loops.FunctionalLoop(state)
 
